@@ -58,6 +58,14 @@ class GenericGen:
         for k, a in enumerate(["Option<i32>", "i32", "Option<String>", self.leaves[0].name]):
             self.entries.append((f"{it.id}#{k}", f"{it.name}<{a}>", [a], it, ["container" if "Option" in a else "prim"]))
 
+        # a type parameter written as a raw identifier
+        rawp = self.mk("named", fields=[Field("fix_raw", Ty("param", "r#gen")), Field("fix_raws", Ty("vec", args=[Ty("param", "r#gen")]))])
+        rawp.params = ["r#gen"]
+        rawp.generics_src = "<r#gen>"
+        self.meta[rawp.id] = {"role": "definition", "params": ["gen"], "ts_params": ["gen"], "defaults": [], "concrete": None, "lifetime": False,
+                              "const": False, "uses": {"gen": "bare"}, "kind": "named", "tags": [], "optional_fields": None}
+        for k, a in enumerate([self.leaves[0].name, "String"]):
+            self.entries.append((f"{rawp.id}#{k}", f"{rawp.name}<{a}>", [a], rawp, ["user" if k == 0 else "prim"]))
         # a generic struct that *is* its flattened member, instantiated several times in one process
         inner = self.mk("named", fields=[Field("fix_body", Ty("param", "T")), Field("fix_seq", prim("i32"))])
         inner.params = ["T"]
